@@ -19,6 +19,7 @@ def run(tier, seed):
     chk.cov["bit_positions_flipped"] = bits
     chk.leg("trace validation (Layer A judge)", events=n, flipped_tuples_verified=bits,
             fields=["sig (every bit incl. the hint section and the last two bytes)", "serialised pk (re-deserialised)", "message", "context"])
+    common.nohooks_leg(chk, "flips", ntuples=1, fields="sig")
     common.mc_variants(chk, "MC_Hint", (44, 65), tier=tier, workers=12)
     chk.cov["exhaustive"] = True
     chk.cov["exhaustive_note"] = "every single-bit position of every field of the sampled valid tuples; the tuples themselves are sampled"
